@@ -11,7 +11,7 @@ LEVEL_TEXT = (
     'Static decision of the cache-coherence clause of C05: every read of IndexHierarchy._blocks (the lazily cached '
     'per-depth table) in the class and in its external readers, and of ArrayGO._array, sits where the staleness flag '
     'is known False or after the refresher ran, on every path; a violated obligation is a reader that serves the table '
-    'from before an append/extend while the tree has grown. Also decided: the grow-only mutators of IndexHierarchyGO / IndexLevelGO / ArrayGO update tree, cached length and staleness flag in lock-step and validate before mutating; IndexHierarchy.__init__ keeps a donor level tree only when both sides are static; no dtype= argument is the class np.dtype (TypeBlocks.dtypes is on the path of every multi-row hierarchical extraction); the two tree builders (from_labels, _from_type_blocks) are structurally identical and reject a re-opened node that is not the sequential predecessor. Views: every view method of Index / IndexHierarchy (__len__, values, positions, __iter__, __reversed__, depth, shape, __contains__) presents the one backing label sequence (tree while stale, table when fresh). Cached leaf counts: an IndexLevelGO mutator that grows a node below the root resets the cached _length of every node recorded along its descent. Key-steered descent: an IndexLevelGO mutator that steps into a fixed child (targets[-1]) checks that the matched key component sits at that position and raises otherwise, before mutating. Offset accumulation: the HLoc worklist walk of IndexLevel.loc_to_iloc hands the accumulated offset (popped offset + the node\'s own) to every child it pushes and to the leaf lookup. Key walkers: IndexLevel membership and leaf lookup agree that a key is accepted at a leaf only when it is exhausted (no over-long tuple is a member). Sibling offsets: every loop that places IndexLevel nodes under a parent gives each the running length of its preceding siblings as offset, and level_drop recomputes lengths and offsets after cutting leaves. Open slice ends: under an offset (a sub-level of a hierarchy) every bound of the iloc slice LocMap.loc_to_iloc returns is explicit, so a half-open label slice at an inner depth stays inside its sub-level. Slice bounds under an offset: every start / stop position LocMap.map_slice_args yields has had the offset added on every path (exact, same-unit and coarser-unit datetime bounds). Reverse option: every path of TypeBlocks.axis_values that yields has consulted `reverse` (reversed() of a hierarchy, reverse column iteration of a Frame). Not decided: HLoc resolution (offset arithmetic, partial '
+    'from before an append/extend while the tree has grown. Also decided: the grow-only mutators of IndexHierarchyGO / IndexLevelGO / ArrayGO update tree, cached length and staleness flag in lock-step and validate before mutating; IndexHierarchy.__init__ keeps a donor level tree only when both sides are static; no dtype= argument is the class np.dtype (TypeBlocks.dtypes is on the path of every multi-row hierarchical extraction); the two tree builders (from_labels, _from_type_blocks) are structurally identical and reject a re-opened node that is not the sequential predecessor. Views: every view method of Index / IndexHierarchy (__len__, values, positions, __iter__, __reversed__, depth, shape, __contains__) presents the one backing label sequence (tree while stale, table when fresh). Cached leaf counts: an IndexLevelGO mutator that grows a node below the root resets the cached _length of every node recorded along its descent. Key-steered descent: an IndexLevelGO mutator that steps into a fixed child (targets[-1]) checks that the matched key component sits at that position and raises otherwise, before mutating. Offset accumulation: the HLoc worklist walk of IndexLevel.loc_to_iloc hands the accumulated offset (popped offset + the node\'s own) to every child it pushes and to the leaf lookup. Key walkers: IndexLevel membership and leaf lookup agree that a key is accepted at a leaf only when it is exhausted (no over-long tuple is a member). Sibling offsets: every loop that places IndexLevel nodes under a parent gives each the running length of its preceding siblings as offset, and level_drop recomputes lengths and offsets after cutting leaves. Open slice ends: under an offset (a sub-level of a hierarchy) every bound of the iloc slice LocMap.loc_to_iloc returns is explicit, so a half-open label slice at an inner depth stays inside its sub-level. Slice bounds under an offset: every start / stop position LocMap.map_slice_args yields has had the offset added on every path (exact, same-unit and coarser-unit datetime bounds). Reverse option: every path of TypeBlocks.axis_values that yields has consulted `reverse` (reversed() of a hierarchy, reverse column iteration of a Frame). Auto-integer inner levels: the map-less route of Index._loc_to_iloc with an offset raises for keys outside 0..n-1 (element, list, array), honours partial_selection and gives slices explicit bounds, like the mapped route. Not decided: HLoc resolution (offset arithmetic, partial '
     'matches, Boolean masks) and the agreement of tree and table values.')
 
 CLAIM = dict(
@@ -37,3 +37,4 @@ def run(ctx: Ctx) -> None:
     indexrules.offset_open_slice_bounded(ctx)
     selectrules.slice_bounds_offset(ctx)
     flowmisc.option_consulted(ctx)
+    selectrules.nomap_offset_membership(ctx)
